@@ -296,6 +296,18 @@ func c11AfterFailure(c *hx.Ctx, at uint32, enc []byte) {
 					okBuf = bytes.Equal(e.Data, append([]byte{7, 0, 0, 0}, second...))
 				}
 			}
+			touched := ""
+			for _, e := range rec.Events {
+				switch e.Op {
+				case "f.Write", "OpenFile", "Stat", "Open", "f.Close", "f.Sync", "f.Stat", "f.Read", "f.ReadAt", "f.Seek":
+				default:
+					touched = e.Op
+				}
+			}
+			if touched != "" {
+				c.Outcome("violation")
+				c.Violation("C11 write after a failed write on the same object touches something else: "+touched, map[string]any{"failed_write": kind})
+			}
 			if err != nil || writes != 1 || !okBuf {
 				c.Outcome("violation")
 				var tr []string
@@ -476,17 +488,25 @@ func c11Run(c *hx.Ctx, tier, unit string) {
 						}
 					})
 					writes := 0
+					other := ""
 					var tr []string
 					for _, e := range rec.Events {
 						tr = append(tr, e.String())
-						if e.Op == "f.Write" {
+						switch e.Op {
+						case "f.Write":
 							writes++
+						case "OpenFile", "Stat", "Open", "f.Close", "f.Sync", "f.Stat", "f.Read", "f.ReadAt", "f.Seek":
+						default:
+							other = e.Op
 						}
 					}
 					d := map[string]any{"api": api, "attrs": at, "value": v.name, "trace": tr, "error": fmt.Sprint(err)}
 					switch {
 					case pn != nil:
 						c.Violation("C11 short write via "+api+": ends in "+pn.String(), d)
+					case other != "":
+						c.Outcome("violation")
+						c.Violation("C11 short write via "+api+": the failed write touches something else: "+other, d)
 					case writes != 1:
 						c.Outcome("violation")
 						c.Violation(fmt.Sprintf("C11 short write via %s: %d write operations instead of exactly one (a partial write is retried)", api, writes), d)
